@@ -16,6 +16,7 @@ EXPLANATION = (
     "present), that on success edge.vertices[k] IS the listed vertex whose id equals edge.vertex_ids[k], and that it raises otherwise."
 )
 BOUNDS = {"quick": "seeded third of the structural cases (edge kind x 10 unordered pose-type pairs x 6 measurement types x 5 offset types x 1..3 ids), all id bindings and all shapes symbolic", "thorough": "all 1080 structural cases"}
+BOUNDS = {k: v + "; stale variants (edge pre-bound to foreign vertices of the same ids); twin variants (a consistent edge of the same class listed first)" for k, v in BOUNDS.items()}
 OUTSIDE = "(stale-* cases: the edge object arrives with vertices already populated by an earlier binding) edges of custom classes (their is_valid is user code); information objects are represented by their shape only"
 ASSUMPTIONS = ["vertex ids pairwise distinct", "information shape entries are positive integers"]
 
@@ -49,7 +50,7 @@ def _value(P, g, typ, name):
     return None
 
 
-def _case(ekind, vtypes, est_type, off_type, arity, stale=False):
+def _case(ekind, vtypes, est_type, off_type, arity, stale=False, twin=False):
     def fn(P, g):
         np = P.np
         nv = len(vtypes)
@@ -74,9 +75,27 @@ def _case(ekind, vtypes, est_type, off_type, arity, stale=False):
             # are NOT the new graph's vertices and are all of the measurement's type
             st = est_type if est_type in POSE_KINDS else "R2"
             e.vertices = [g.Vertex(eids[k], mk_pose(P, g, st, "stale%d" % k, wrapped=True)) for k in range(arity)]
+        edges = [e]
+        if twin:
+            # a CONSISTENT edge of the same class between the first two listed vertices comes first in the edge list: every
+            # edge is validated, not one representative per kind
+            n_t = COMPACT[vtypes[1]]
+            if P.symbolic:
+                # the same kind of shape object as the edge under test (engine integers hash alike, so that a dictionary
+                # keyed on shapes compares them)
+                from symrun.scalars import SymInt
+
+                info_t = ShapeOnly(SymInt(n_t), SymInt(n_t))
+            else:
+                info_t = np.zeros((n_t, n_t))
+            if ekind == "odom":
+                first = g.EdgeOdometry([vids[0], vids[1]], info_t, mk_pose(P, g, vtypes[0], "tz", wrapped=True))
+            else:
+                first = g.EdgeLandmark([vids[0], vids[1]], info_t, mk_pose(P, g, vtypes[1], "tz", wrapped=True), mk_pose(P, g, vtypes[0], "toff", wrapped=True), offset_id=0)
+            edges = [first, e]
         raised = None
         try:
-            graph = g.Graph([e], list(verts))
+            graph = g.Graph(edges, list(verts))
         except (KeyError, AssertionError) as ex:
             raised = ex
         # which vertex does every id bind to (decided on this path)
@@ -105,7 +124,7 @@ def _case(ekind, vtypes, est_type, off_type, arity, stale=False):
                 for k in range(arity):
                     P.check("bound_to_named_vertex_%d" % k, e.vertices[k] is verts[bound[k]])
                     P.check("bound_id_matches_%d" % k, e.vertices[k].id == e.vertex_ids[k])
-                P.check("vertex_list_untouched", graph._vertices == verts and len(graph._edges) == 1)
+                P.check("vertex_list_untouched", graph._vertices == verts and len(graph._edges) == len(edges))
         else:
             P.check("inconsistent_edge_rejected", raised is not None)
 
@@ -149,4 +168,8 @@ def cases(tier):
     if tier == "quick":
         stale = stale[::5]
     out += [Case("stale-" + _name(s), _case(*s, stale=True), timeout=10, validate=2, feas_timeout_ms=1000) for s in stale]
+    twins = [s for s in all_structs() if s[4] == 2 and len(s[1]) == 2 and (s[0] == "lmk" or s[1][0] == s[1][1])]
+    if tier == "quick":
+        twins = twins[::4]
+    out += [Case("twin-" + _name(s), _case(*s, twin=True), timeout=10, validate=2, feas_timeout_ms=1000) for s in twins]
     return out
